@@ -59,16 +59,38 @@ void FeatureChecker::visitEdge(edge_t& edge)
     visitGuard(edge.guard);
 }
 
+/**
+ * Symbolic analysis cannot compare with floating point values: looks at every comparison of a guard or
+ * invariant, whichever relational operator it uses and whatever connectives it sits under.
+ */
 void FeatureChecker::visitGuard(expression_t& guard)
 {
+    if (guard.empty())
+        return;
     switch (guard.get_kind()) {
     case Constants::LT:
     case Constants::LE:
     case Constants::EQ:
+    case Constants::NEQ:
+    case Constants::GE:
+    case Constants::GT:
+        for (size_t i = 0; i < guard.get_size(); ++i) {
+            if (guard.get(i).get_kind() == Constants::RATE)
+                return;  // a clock rate "x' == 1.5": see isRateDisallowedInSymbolic
+        }
         for (size_t i = 0; i < guard.get_size(); ++i) {
             if (guard.get(i).uses_fp())
                 supported_methods.symbolic = false;
         }
+        break;
+    case Constants::AND:
+    case Constants::OR:
+    case Constants::NOT:
+    case Constants::FORALL:
+    case Constants::EXISTS:
+        for (size_t i = 0; i < guard.get_size(); ++i)
+            visitGuard(guard.get(i));
+        break;
     default: break;
     }
 }
@@ -95,6 +117,7 @@ void FeatureChecker::visitLocation(location_t& location)
         return;
     if (isRateDisallowedInSymbolic(invariant))
         supported_methods.symbolic = false;
+    visitGuard(location.invariant);
 }
 
 /**
